@@ -82,6 +82,7 @@ def net_record(desc):
         ("ins", _fnv(steps, [(s["name"], tla(s["ins"])) for s in m["steps"]])),
         ("outs", _fnv(steps, [(s["name"], tla(s["outs"])) for s in m["steps"]])),
         ("inputs", _fnv(ports, inp)),
+        ("depth", _fnv(steps, [(x["name"], str(x.get("depth", 1))) for x in m["steps"]])),
         ("outports", tla(set(m["outputs"]))),
         ("fail", "{%s}" % ", ".join("<<%s, %s>>" % (tla(s), tla(t)) for s, t in m["fail"])),
         ("expected", "{%s}" % ", ".join("<<%s, %s, %s>>" % (tla(p), tla(t), tla(v)) for p, t, v in exp["outputs"])),
@@ -139,7 +140,7 @@ def expected(desc):
             ins = [streams[p] for p in s["ins"]]
             k = s["kind"]
             upstream_failed = any(p in failed_ports for p in s["ins"])
-            if k in ("fwd", "exec", "cond"):
+            if k in ("fwd", "mul", "exec", "cond"):
                 tags = set(ins[0])
                 for d in ins[1:]:
                     tags &= set(d)
@@ -149,6 +150,11 @@ def expected(desc):
                     tot = sum(val(d[t]) for d in ins)
                     if k == "fwd":
                         outs[0][t] = 1 + tot
+                    elif k == "mul":
+                        pr = 1
+                        for d in ins:
+                            pr *= val(d[t])
+                        outs[0][t] = pr
                     elif k == "exec":
                         if (s["name"], t) in fail:
                             upstream_failed = True
@@ -169,8 +175,9 @@ def expected(desc):
                 streams[s["outs"][0]], streams[s["outs"][1]] = el, sz
             elif k == "gather":
                 groups = {}
+                dp = s.get("depth", 1)
                 for t, v in ins[0].items():
-                    groups.setdefault(t[:-1], []).append((t, v))
+                    groups.setdefault(t[:-dp], []).append((t, v))
                 out = {}
                 for key, items in groups.items():
                     out[key] = [v for _, v in sorted(items, key=lambda x: (len(x[0]), x[0]))]
@@ -178,6 +185,14 @@ def expected(desc):
                     if n == 0:
                         out.setdefault(key, [])
                 streams[s["outs"][0]] = out
+            elif k == "cart":
+                o1, o2 = {}, {}
+                for t1, v1 in ins[0].items():
+                    for t2, v2 in ins[1].items():
+                        if t1[:-1] == t2[:-1]:
+                            nt = t1[:-1] + (t1[-1], t2[-1])
+                            o1[nt], o2[nt] = v1, v2
+                streams[s["outs"][0]], streams[s["outs"][1]] = o1, o2
             elif k == "dot":
                 tags = set(ins[0])
                 for d in ins[1:]:
